@@ -32,15 +32,23 @@ const (
 	kStats
 	kTick
 	kRace
+	kRecAtt
+	kListAtt
+	kCapTrend
+	kListTrend
+	kReopen
 	kN
 )
 
 var profiles = map[string][kN]int{
-	"all": {18, 5, 18, 14, 7, 8, 7, 4, 3, 2, 3, 11, 3},
-	"lease": {14, 2, 24, 22, 12, 6, 2, 1, 0, 0, 1, 16, 3},
-	"time": {14, 2, 26, 18, 6, 3, 1, 1, 0, 0, 3, 26, 1},
+	"all": {18, 5, 18, 14, 7, 8, 7, 4, 3, 2, 3, 11, 3, 0, 0, 0, 0, 2},
+	"lease": {14, 2, 24, 22, 12, 6, 2, 1, 0, 0, 1, 16, 3, 0, 0, 0, 0, 3},
+	"time": {14, 2, 26, 18, 6, 3, 1, 1, 0, 0, 3, 26, 1, 0, 0, 0, 0, 3},
 	"admission": {30, 16, 14, 10, 4, 6, 2, 2, 1, 1, 4, 10, 1},
-	"operator": {14, 4, 10, 8, 3, 20, 22, 6, 4, 3, 1, 5, 6},
+	"operator": {14, 4, 10, 8, 3, 20, 22, 6, 4, 3, 1, 5, 6, 0, 0, 0, 0, 2},
+	// the auxiliary logs (delivery attempts, backlog-trend samples) next to ordinary traffic; the four new kinds have weight 0
+	// in every other profile, so the schedules of those profiles are unchanged
+	"aux": {14, 4, 12, 10, 3, 4, 2, 1, 1, 0, 2, 10, 0, 12, 10, 8, 8, 2},
 }
 
 // ProfileCfg adapts a random configuration to a profile.
@@ -194,6 +202,8 @@ func GenSchedule(r *rand.Rand, name string, cfg Cfg, o DriverOpts) Schedule {
 	}
 
 	ops := make([]Op, 0, o.Ops)
+	attN, lastCap := 0, -1
+	var caps []int
 	if o.BigPop {
 		// large population in a few batches so that the 100 / 1000 caps are reached
 		n := 0
@@ -238,8 +248,15 @@ func GenSchedule(r *rand.Rand, name string, cfg Cfg, o DriverOpts) Schedule {
 		ttlSet = []int{5, 10, 20, 20, 30, 50, 0}
 	}
 	if o.Churn {
-		// 1140 messages, 900 of them consumed in batches, 100 leased and abandoned, then redelivery
+		// 1140 messages, 900 of them consumed in batches, 100 leased and abandoned, then redelivery.
+		// Two messages sit in the DLQ / canceled through the whole churn (and the order-list compaction it causes on the
+		// memory store) and are requeued / resumed afterwards: they must be offered again like any other ready message.
 		n := 0
+		ops = append(ops,
+			Op{Op: "EnqueueBatch", Envs: []EnvSpec{{ID: "z001", Rt: routes[0], Tg: targets[0], Pl: "a"}, {ID: "z002", Rt: routes[0], Tg: targets[0], Pl: "b"}}},
+			Op{Op: "Dequeue", Rt: routes[0], Batch: 2, TTL: 50},
+			Op{Op: "LeaseOp", Kind: "dead", Lease: &LeaseRef{Msg: "z001"}, Reason: "no_retry"},
+			Op{Op: "MutateIds", MOp: "cancel", IDs: []string{"z002"}})
 		for b := 0; b < 12; b++ {
 			envs := make([]EnvSpec, 0, 95)
 			for i := 0; i < 95; i++ {
@@ -268,9 +285,12 @@ func GenSchedule(r *rand.Rand, name string, cfg Cfg, o DriverOpts) Schedule {
 			Op{Op: "Dequeue", Rt: routes[0], Batch: 100, TTL: 20},
 			Op{Op: "Dequeue", Rt: routes[0], Batch: 100, TTL: 20},
 			Op{Op: "Dequeue", Rt: routes[0], Batch: 100, TTL: 20},
+			Op{Op: "MutateIds", MOp: "requeuedead", IDs: []string{"z001"}},
+			Op{Op: "MutateIds", MOp: "resume", IDs: []string{"z002"}},
+			Op{Op: "Dequeue", Rt: routes[0], Batch: 100, TTL: 20},
 			Op{Op: "Stats"})
 		now += 62
-		ids = append(ids, "c0901", "c0950", "c1001", "c1140")
+		ids = append(ids, "c0901", "c0950", "c1001", "c1140", "z001", "z002")
 		o.Ops = len(ops) + 15
 	}
 	for len(ops) < o.Ops {
@@ -363,6 +383,70 @@ func GenSchedule(r *rand.Rand, name string, cfg Cfg, o DriverOpts) Schedule {
 			f := filter()
 			f.Limit = pick(r, 0, 0, 2, 1000)
 			ops = append(ops, Op{Op: "FilterRace", MOp: pick(r, "cancel", "requeue", "resume"), F: f, Inner: inner})
+		case kReopen:
+			// restart of the process that owns the database (SQLite; skipped on the memory store)
+			ops = append(ops, Op{Op: "Reopen"})
+		case kRecAtt:
+			attN++
+			a := AttSpec{Ev: rid(), Rt: rrt(0), Tg: rtg(0), N: 1 + r.Intn(4), Code: pick(r, 0, 0, 200, 204, 404, 429, 503),
+				Err: pick(r, "", "", "dial tcp: refused", "  timeout \t", " "), Out: pick(r, "acked", "retry", "retry", "dead", ""),
+				Dr: pick(r, "", "", "no_retry", " max_retries ", "\t")}
+			switch x := r.Intn(10); {
+			case x < 6: // explicit id, the store's clock
+				a.ID, a.IDN = fmt.Sprintf("a%04d", attN), attN
+			case x < 8: // explicit id and instant (ties and out-of-order instants)
+				a.ID, a.IDN = fmt.Sprintf("a%04d", attN), attN
+				a.At = now - pick(r, 0, 0, 1, 5, 40)
+			default: // blank id: the store makes one up; a unique instant identifies the record in listings
+				a.ID = pick(r, "", "  ")
+				a.At = 200000 + attN
+			}
+			ops = append(ops, Op{Op: "RecordAttempt", Att: &a})
+		case kListAtt:
+			f := &AttFilter{Limit: pick(r, 0, 0, 1, 2, 3, -1, 1000, 1001)}
+			if r.Intn(3) == 0 {
+				f.Rt = rrt(0)
+			}
+			if r.Intn(4) == 0 {
+				f.Tg = rtg(0)
+			}
+			if r.Intn(3) == 0 {
+				f.Ev = rid()
+			}
+			if r.Intn(3) == 0 {
+				f.Out = pick(r, "acked", "retry", "dead", "bogus")
+			}
+			if r.Intn(3) == 0 {
+				f.Before = pick(r, now, now+1, now-3, now-20, 200000+attN)
+			}
+			ops = append(ops, Op{Op: "ListAttempts", AF: f})
+		case kCapTrend:
+			if lastCap == now { // one sample per instant (see QueueAux.tla)
+				now++
+				ops = append(ops, Op{Op: "Tick", D: 1})
+			}
+			lastCap = now
+			caps = append(caps, now)
+			ops = append(ops, Op{Op: "CaptureTrend", At: pick(r, 0, 0, now)})
+		case kListTrend:
+			q := &TrendQuery{Limit: pick(r, 0, 0, 1, 2, 3, -1, 20001)}
+			switch r.Intn(5) {
+			case 0:
+				q.Rt = rrt(0)
+			case 1:
+				q.Tg = rtg(0)
+			case 2:
+				q.Rt, q.Tg = rrt(0), rtg(0)
+			case 3:
+				q.Rt = " " + rrt(0) + " "
+			}
+			if len(caps) > 0 && r.Intn(3) == 0 {
+				q.Since = caps[r.Intn(len(caps))] + pick(r, 0, 0, 1)
+			}
+			if len(caps) > 0 && r.Intn(3) == 0 {
+				q.Until = caps[r.Intn(len(caps))] + pick(r, 0, 1, 1)
+			}
+			ops = append(ops, Op{Op: "ListTrend", TF: q})
 		default:
 			d := tickSet[r.Intn(len(tickSet))]
 			now += d
